@@ -13,7 +13,11 @@ func init() {
 		e.RDecs(false)
 		e.REntry()
 		e.RFileScope()
+		e.RPerFileState()
+		e.RNewlineScan()
 		e.RClauseSym()
 		e.RCursor(false)
+		e.RFragHelpers()
+		e.RFragOrder()
 	})
 }
